@@ -677,7 +677,7 @@ def data_iterator(data_field, chunksize=1 << 20):
         start = c[0]
         data = data_field.data[start:start + chunksize * 2]
         for v in range(c[0], c[1]):
-            yield data[v]
+            yield data[v - start]
 
 
 @exetera_njit
